@@ -92,7 +92,7 @@ theorem run_applied_after (c : Cfg) (hc : c.legacy = false) :
 
 /-- how one step changes the set of PendingCount calls that are between their two reads -/
 theorem step_reads (c : Cfg) (s : St) (e : Ev) (s' : St) (hs : step c s e = some s') :
-    ∀ p ∈ s'.reads, p ∈ s.reads ∨ (p = pendingCount s ∧ ∃ v, e = .pa v) := by
+    ∀ p ∈ s'.reads, p ∈ s.reads ∨ (p = s.counter - processed s ∧ ∃ v, e = .pa v) := by
   cases e
   all_goals
     simp only [step, fwdStep] at hs
@@ -107,16 +107,16 @@ theorem step_reads (c : Cfg) (s : St) (e : Ev) (s' : St) (hs : step c s e = some
     rename_i v hv
     simp only [List.mem_cons] at hp
     rcases hp with rfl | hp
-    · right; exact ⟨by simp [pendingCount, hv], v, rfl⟩
+    · right; exact ⟨by simp [hv], v, rfl⟩
     · left; exact hp
   · -- pb
     left; exact List.mem_of_mem_erase hp
 
 /-- every pending PendingCount call remembers the count of a state the run went through -/
 theorem reads_origin (c : Cfg) (s : St) (hr : Reachable c s) :
-    ∀ p ∈ s.reads, ∃ s0 es, Reachable c s0 ∧ pendingCount s0 = p ∧ run c s0 es = some s := by
+    ∀ p ∈ s.reads, ∃ s0 es, Reachable c s0 ∧ s0.counter - processed s0 = p ∧ run c s0 es = some s := by
   refine reachable_induction (c := c)
-    (P := fun s => Reachable c s ∧ ∀ p ∈ s.reads, ∃ s0 es, Reachable c s0 ∧ pendingCount s0 = p ∧ run c s0 es = some s)
+    (P := fun s => Reachable c s ∧ ∀ p ∈ s.reads, ∃ s0 es, Reachable c s0 ∧ s0.counter - processed s0 = p ∧ run c s0 es = some s)
     ⟨⟨[], rfl⟩, by simp [init]⟩ ?_ s hr |>.2
   intro s e s' ⟨hreach, hi⟩ hs
   refine ⟨reachable_step hreach hs, ?_⟩
